@@ -4,6 +4,7 @@ import (
 	"fmt"
 	"go/token"
 	"go/types"
+	"sort"
 	"strings"
 
 	"golang.org/x/tools/go/ssa"
@@ -281,6 +282,83 @@ func ruleBatchBuffer(c *Ctx) {
 			mu, ok := x.(*ssa.MapUpdate)
 			return ok && isLoadOf(mu.Map, batch)
 		}}, newSettledEv(sr, "flush", callMatcher(F(flush)))}, all, "a save returns success only with the region in the buffer and no failed flush")
+	// flush writes whenever something is buffered. It may skip the write on an empty buffer; judging
+	// emptiness by the counter is sound only if every buffered region is counted (or flushed) after it
+	// was put into the buffer — otherwise a region sits in the batch with a zero count and neither
+	// Flush nor Close ever writes it.
+	isBuffer := func(x ssa.Instruction) bool {
+		mu, ok := x.(*ssa.MapUpdate)
+		return ok && isLoadOf(mu.Map, batch)
+	}
+	buffered := &calledEv{name: "region buffered", match: isBuffer}
+	counted := &calledEv{name: "counted (cacheSize advanced) or flushed after buffering", reset: isBuffer, match: func(x ssa.Instruction) bool {
+		if st, ok := x.(*ssa.Store); ok && fieldOfAddr(st.Addr) == cache {
+			return !isConstInt(0)(st.Val) && derivesFrom(st.Val, loadOfField(cache), 3)
+		}
+		return instrCallMatcher(F(flush))(x)
+	}}
+	_, fails := requireAt(P, sr, 0, []Ev{buffered, counted}, func(x ssa.Instruction) bool { _, ok := x.(*ssa.Return); return ok }, func(h []bool) bool { return !h[0] || h[1] })
+	countExact := len(fails) == 0
+	c.need(rule, flush, "successful return", func(x ssa.Instruction) bool { r, ok := x.(*ssa.Return); return ok && retIsNilErr(r) },
+		[]Ev{newOkEv(flush, "ok(SaveRegions)", callMatcher(saveRegions)),
+			guardRel("len(batchRegions) == 0", "== <=", lenOf(loadOfField(batch)), isConstInt(0)),
+			guardRel("cacheSize == 0", "== <=", loadOfField(cache), isConstInt(0))},
+		func(h []bool) bool { return h[0] || h[1] || (h[2] && countExact) },
+		"flush returns success only after writing the batch, or when the buffer is empty (by length, or by a counter that covers every buffered region)")
+}
+
+// ruleLoadCallbackChecked: what the loader deletes from storage is what the
+// callback reports. Only the checked insertion reports a stale record itself
+// (and leaves the cache alone); the unchecked one lets whichever record is
+// visited last win and has the loader delete the live regions it displaced.
+func ruleLoadCallbackChecked(c *Ctx) {
+	P := c.P
+	rule := c.Prop + "/load-prunes"
+	checked := P.Method("server/core", "BasicCluster", "CheckAndPutRegion")
+	n := 0
+	for _, name := range []string{"LoadRegionsOnce", "LoadRegions"} {
+		lf := P.methodOpt("server/core", "Storage", name)
+		if lf == nil {
+			continue
+		}
+		sites, _ := c.nonScaffoldCallers(lf)
+		for _, s := range sites {
+			if fnPkgPath(s.Caller) == modPath+"/server/core" {
+				continue
+			}
+			a := callArgs(s.Instr.Common())
+			if len(a) == 0 {
+				continue
+			}
+			n++
+			ok := false
+			why := "the callback is not CheckAndPutRegion"
+			for _, alt := range valueAlternatives(a[len(a)-1], 3) {
+				mc, isC := strip(alt).(*ssa.MakeClosure)
+				if !isC {
+					ok = false
+					break
+				}
+				f := mc.Fn.(*ssa.Function)
+				if f.Object() != nil && f.Object() == checked.Object() {
+					ok = true
+					continue
+				}
+				if f.Synthetic == "" && len(callsIn(f, false, F(checked))) > 0 {
+					ok = true
+					continue
+				}
+				ok = false
+				why = "callback " + fnName(f)
+				break
+			}
+			c.saw(fnName(s.Caller))
+			c.Check(ok, rule, "load callback in "+fnName(s.Caller), "loaded records enter the cache through the checked insertion, which reports a stale record itself instead of the live regions it overlaps", P.instrPos(s.Instr.(ssa.Instruction)), why)
+		}
+	}
+	if n < 2 {
+		c.Undec(rule, "callers of Storage.LoadRegionsOnce/LoadRegions", "at least 2", "", fmt.Sprint(n))
+	}
 }
 
 // ruleLoadedOnceAfterSuccess: LoadRegionsOnce remembers "loaded" only after
@@ -441,10 +519,102 @@ func ruleRegionBackendSelection(c *Ctx) {
 func init() {
 	register("C17", "Persisted stores and regions are loaded back completely and pruned consistently", func(c *Ctx) {
 		c.Group("C17/key-format", "all store/region key builders (storage, bootstrap, weights) render ids with the same zero-padded width and segments", func() { ruleKeyFormats(c) })
-		c.Group("C17/load-prunes", "loading deletes every region the callback reports from the backend being read, pages by last id + 1 and stops only on a short page; items live under their own id's key", func() { ruleLoadAndPrune(c); ruleLoadedOnceAfterSuccess(c) })
+		c.Group("C17/load-prunes", "loading deletes every region the callback reports from the backend being read, pages by last id + 1 and stops only on a short page; items live under their own id's key", func() { ruleLoadAndPrune(c); ruleLoadedOnceAfterSuccess(c); ruleLoadCallbackChecked(c) })
 		c.Group("C17/weights-written", "SaveStoreWeight writes both weight keys unconditionally", func() { ruleWeightsAlwaysWritten(c) })
 		c.Group("C17/storage-errors", "no storage function reports success after a kv call whose error was not found nil", func() { ruleStorageErrorDiscipline(c) })
 		c.Group("C17/backend-selection", "load, save and delete of region records select the backend by the same useRegionStorage test", func() { ruleRegionBackendSelection(c) })
+		c.Group("C17/memo-after-outcome", "(shared with C18) a Storage method updates the object's own state only after, and on the success side of, its storage calls", func() { ruleStorageMemoAfterOutcome(c) })
 		c.Group("C17/batch-buffer", "region batch buffer: fields under its lock, written under the lock, emptied only after a successful write, flushed before close", func() { ruleBatchBuffer(c) })
 	})
+}
+
+// ruleStorageMemoAfterOutcome: whatever a Storage method remembers in the
+// Storage object itself (a flag, a cached copy of what the backend holds) is
+// written only when the outcome of that call's storage operations is known:
+// not before a fallible storage call, and after one only on its success side.
+// A memo written ahead of a write that then fails claims the backend holds
+// what it refused, and later calls act on that claim (skip the write, skip the
+// load).
+func ruleStorageMemoAfterOutcome(c *Ctx) {
+	P := c.P
+	rule := c.Prop + "/memo-after-outcome"
+	n := 0
+	for _, fn := range P.Funcs {
+		if P.isScaffold(fn) || fnPkgPath(fn) != modPath+"/server/core" || fn.Signature.Recv() == nil || fn.Parent() != nil || len(fn.Params) == 0 {
+			continue
+		}
+		rn := namedOf(fn.Signature.Recv().Type())
+		if rn == nil || rn.Obj().Name() != "Storage" {
+			continue
+		}
+		recv := fn.Params[0]
+		ownField := func(v ssa.Value) bool {
+			fa, ok := strip(v).(*ssa.FieldAddr)
+			return ok && strip(fa.X) == ssa.Value(recv)
+		}
+		isMemoWrite := func(x ssa.Instruction) bool {
+			switch t := x.(type) {
+			case *ssa.Store:
+				return ownField(t.Addr)
+			case *ssa.MapUpdate:
+				if u, ok := strip(t.Map).(*ssa.UnOp); ok {
+					return ownField(u.X)
+				}
+			case *ssa.Call:
+				f := t.Call.StaticCallee()
+				if f == nil || len(t.Call.Args) == 0 || !ownField(t.Call.Args[0]) {
+					return false
+				}
+				for _, p := range []string{"Store", "Swap", "Add", "CompareAndSwap", "Delete", "LoadOrStore"} {
+					if strings.HasPrefix(f.Name(), p) {
+						return true
+					}
+				}
+			}
+			return false
+		}
+		has := false
+		for _, b := range fn.Blocks {
+			for _, ins := range b.Instrs {
+				has = has || isMemoWrite(ins)
+			}
+		}
+		if !has {
+			continue
+		}
+		// the fallible storage calls of this method
+		fallible := errorReturningCallees(fn)
+		var names []string
+		for k := range fallible {
+			names = append(names, k)
+		}
+		sort.Strings(names)
+		if len(names) == 0 {
+			continue
+		}
+		n++
+		var settled []Ev
+		isFallible := func(x ssa.Instruction) bool {
+			cl, ok := x.(*ssa.Call)
+			if !ok {
+				return false
+			}
+			for _, k := range names {
+				if fallible[k](cl) {
+					return true
+				}
+			}
+			return false
+		}
+		for _, k := range names {
+			settled = append(settled, newSettledEv(fn, k, fallible[k]))
+		}
+		c.mustPrecede(rule, fn, "write to the Storage object's own state", isMemoWrite, settled, all,
+			"the object's own state is updated only on the success side of the storage calls made so far")
+		c.mustPrecede(rule, fn, "fallible storage call", isFallible, []Ev{&calledEv{name: "own state already updated", match: isMemoWrite}},
+			func(h []bool) bool { return !h[0] }, "nothing is remembered in the Storage object before a storage call whose outcome is still open")
+	}
+	if n == 0 {
+		c.Undec(rule, "Storage methods that both call the backend and update the object's own state", "at least 1 (LoadRegionsOnce)", "", "0")
+	}
 }
